@@ -126,6 +126,10 @@ func (l *basicLoader) SetEntry(name px.TypedName, entry px.LoaderEntry) px.Loade
 	defer l.lock.Unlock()
 
 	if old, ok := l.namedEntries[name.MapKey()]; ok {
+		if entry.Value() == nil {
+			// a cached miss never replaces, nor conflicts with, what is already there
+			return old
+		}
 		ov := old.Value()
 		if ov == nil {
 			*old.(*loaderEntry) = *entry.(*loaderEntry)
